@@ -18,10 +18,16 @@
 # vim: set fileencoding=utf-8 :
 '''Utilities for handling lattices.'''
 
+import re
 from functools import reduce
 from ..VectUtils import (vsum, vdiff, rescale, scal, vect, mag2,
                          pointInPlaneIntersection, planeSide,
                          projectPointOnPlane)
+
+
+# an integer as it may be written in a range: int() alone also accepts
+# digit-group underscores ('1_0') and non-ASCII digits
+INTEGER_RE = re.compile(r'\s*[-+]?[0-9]+\s*$')
 
 
 class LatticeError(Exception):
@@ -235,16 +241,11 @@ def parse_ranges(intervals):
         if len(bounds) != 2:
             raise ValueError('needs exactly 2 colon-separated range '
                              f'bounds in argument {rang!r}')
-        try:
-            start = int(bounds[0])
-        except ValueError:
-            raise ValueError(f'range bound {bounds[0]!r} is not an '
-                             'integer') from None
-        try:
-            end = int(bounds[1])
-        except ValueError:
-            raise ValueError(f'range bound {bounds[1]!r} is not an '
-                             'integer') from None
+        for bound in bounds:
+            if not INTEGER_RE.match(bound):
+                raise ValueError(f'range bound {bound!r} is not an integer')
+        start = int(bounds[0])
+        end = int(bounds[1])
         if end < start:
             raise ValueError(f'range {rang!r} is empty: the upper bound is '
                              'smaller than the lower bound')
